@@ -263,4 +263,4 @@ Qed.
 
 (* hence a collection keeps every truly reachable block, over every history *)
 Lemma reachable_kept : reachable_kept_full.
-Proof. intros h stk a it. apply reachable_kept_partial. apply leaf_flag_sound. Qed.
+Proof. intros h stk a it. apply reachable_kept_of_leaf_ok. apply leaf_flag_sound. Qed.
